@@ -192,3 +192,21 @@ def run_all(scenarios, make_monitor, P, workers=None, budget_s=None, seed=0):
         pool.join()
     out["wall"] = time.time() - t0
     return out
+
+
+def replay_scenario(path, make_monitor, prop=None):
+    """straight-line re-execution of one recorded scenario, without the enumerator"""
+    from . import props  # noqa
+    from .props.common import P_E
+    with open(path) as f:
+        rp = json.load(f)
+    sc = Scenario.from_json(rp["history"])
+    steps = []
+    viols, st = run_scenario(sc, make_monitor, P_E()[0], collect=steps)
+    for r in steps:
+        print(json.dumps(r.brief(), default=repr)[:1500])
+    bad = [v for v in viols if prop is None or v["property"] == prop]
+    for v in bad:
+        print("  -> VIOLATED clause=%s detail=%s" % (v["clause"], json.dumps(v["detail"], default=repr)[:2000]))
+    print("replay: %d violation(s)" % len(bad))
+    return 1 if bad else 0
